@@ -75,7 +75,7 @@ var Check = &run.Check{
 		"parameters 3-7 x {instance, static, abstract, interface abstract, interface default} x {last parameter varargs or not}; non-getter/setter methods 18-22 x {0,3 getters/setters} x {class, abstract class, interface}; " +
 		"{0,1,2,4 getters/setters} x {0,1,2 other methods} x {class, interface} (data class / lazy element and their near misses); top-level ifs 6-10 x {no decoy, ifs nested in loops/try/switch, ifs inside the branches of one top-level if} x {class, interface default}; " +
 		"top-level switches 6-10 x {no decoy, nested switches} x 2 forms; ifs/switches 7|8 x 7|8 in one method; condition height 2-6 lines x {if keyword on the condition's line, alone on the line before} x " +
-		"{top-level in a class, top-level in an interface default method, nested in an if, nested in a loop/try, condition of a while}; every method-level dimension (length, parameters, ifs, switches, condition height) T-2…T+2 once more on an accessor-NAMED ordinary method (getReport(a,b,c,d,e,f), a 31-line setUpEverything()); length / parameters / ifs T-2…T+2 on interface methods (default, static, abstract, generic) whose modifiers or own type-parameter list stand on the line above the return type; parameters T-2…T+2 x {class, interface default} with explicitly typed (and inferred) lambdas in the body. (b) random classes: 0-28 methods, every method draws parameters, if/switch counts, condition heights, " +
+		"{top-level in a class, top-level in an interface default method, nested in an if, nested in a loop/try, condition of a while}; every method-level dimension (length, parameters, ifs, switches, condition height) T-2…T+2 once more on an accessor-NAMED ordinary method (getReport(a,b,c,d,e,f), a 31-line setUpEverything()); length / parameters / ifs T-2…T+2 on methods (interface default, static, abstract, generic; class instance, static generic) whose keyword modifiers or own type-parameter list stand on the line above the return type; parameters T-2…T+2 x {class, interface default} with explicitly typed (and inferred) lambdas in the body. (b) random classes: 0-28 methods, every method draws parameters, if/switch counts, condition heights, " +
 		"body length near the thresholds with probability 3/4, plus nested carriers, else-if chains (only far from the threshold), getters/setters, abstract methods, constructors, fields, comments and strings mentioning `if (`/`switch (`. " +
 		"(c) ignore part: rich projects of 14 files in which each of the seven kinds has >= 2 findings with different sizes and a near miss, a third of the method-level findings sit on accessor-named methods, and longParameterList has >= 17 findings spread over 4 files with sizes unrelated to the file names, analysed with every one of the 2^7 subsets of kinds as ignore list (x3 projects quick, x9 thorough). " +
 		"Every case: AnalysisPath + IdentifyBadSmell(nil) vs truth table; IdentifyBadSmell(ignore list) == full report minus the named kinds; SortSmellByType of that list in pipeline order AND in an order shuffled from the case stream: keys, permutation, sized kinds non-increasing. " +
@@ -83,7 +83,7 @@ var Check = &run.Check{
 		"non-trivial = at least one planted fact within 2 of a threshold; distinct = hash of (per class: kind, fields, constructors, per method: form, role, parameters, varargs, length, if/switch counts, decoy counts, condition heights; ignore mask; CLI/sort flags)",
 	Assumptions: []string{
 		"every generated file is accepted by coca's own Java parser (rejects are counted as inconclusive)",
-		"`the line the declaration starts on`: class methods keep modifiers, return type and name on one line; interface methods may have their keyword modifiers (default/static/public) and/or own type-parameter list on the line above the return type - the declaration then starts on that upper line (it is the first token of the declaration). Method annotations and Javadoc tags on their own line are not generated (comments before a method end on the previous line)",
+		"`the line the declaration starts on`: keyword modifiers (public/static/default/abstract …) and/or the method's own type-parameter list may stand on the line above the return type - the declaration then starts on that upper line (they are its first tokens); otherwise modifiers, return type and name share a line. Method annotations and Javadoc tags on their own line are not generated (comments before a method end on the previous line)",
 		"lambdas appear only as one-line expression lambdas in local initialisers; their (typed or inferred) parameters are not parameters of the enclosing method",
 		"a top-level if/switch statement is a direct child of the method body's statement list; ifs/switches inside branches of if/else/for/while/do/try/switch/synchronized are nested and must not count. Whether the members of an `else if` chain count is not settled by the statement: chains are generated only in methods where (top-level ifs + else-if members) < 8, with one-line conditions. Labelled ifs and bare blocks are not generated",
 		"a condition's '(' is on the line of its first token and its ')' on the line of its last token, so its height is the same with or without the parentheses; the `if` keyword may stand alone on the line before (the finding's line is then the condition's line, not the keyword's)",
@@ -129,7 +129,7 @@ func toTruth(p *smellgen.Project) []oracle.SmellClassTruth {
 		ct := oracle.SmellClassTruth{File: c.RelPath, Kind: c.Kind}
 		for i := range c.Methods {
 			m := &c.Methods[i]
-			mt := oracle.SmellMethodTruth{Name: m.Name, Form: m.Form, GetterSetter: m.GetterSetter(), AccessorNamed: m.AccessorNamed, HeadSplit: m.HeadSplit, TypedLambdaParams: m.TypedLambdaParams, Params: m.Params, Varargs: m.Varargs, Generic: m.Generic, HasBody: m.HasBody,
+			mt := oracle.SmellMethodTruth{Name: m.Name, Form: m.Form, GetterSetter: m.GetterSetter(), AccessorNamed: m.AccessorNamed, HeadSplit: m.HeadSplit, HeadFirst: m.HeadFirst, TypedLambdaParams: m.TypedLambdaParams, Params: m.Params, Varargs: m.Varargs, Generic: m.Generic, HasBody: m.HasBody,
 				StartLine: m.StartLine, CloseLine: m.CloseLine, TopIfs: m.TopIfs, TopSwitches: m.TopSwitches, DecoyLines: m.DecoyLines}
 			for _, cd := range m.Conds {
 				mt.Conds = append(mt.Conds, oracle.SmellCondTruth{IfLine: cd.IfLine, StartLine: cd.StartLine, EndLine: cd.EndLine})
@@ -270,7 +270,7 @@ func runCase(c *run.Ctx, o *run.Outcome) {
 			o.Count("expected_findings_on_accessor_named_methods/"+e.Kind, 1)
 		}
 		if strings.Contains(e.Ctx, "/modifiers-on-previous-line") {
-			o.Count("expected_findings_on_interface_methods_with_modifiers_on_previous_line/"+e.Kind, 1)
+			o.Count("expected_findings_on_methods_with_modifiers_on_previous_line/"+e.Kind, 1)
 		}
 		if strings.Contains(e.Ctx, "/typed-lambda-parameters-in-body") {
 			o.Count("expected_findings_on_methods_with_typed_lambdas/"+e.Kind, 1)
@@ -301,9 +301,10 @@ func runCase(c *run.Ctx, o *run.Outcome) {
 				o.Count("accessor_named_ordinary_methods", 1)
 			}
 			if m.HeadSplit {
-				o.Count("interface_methods_with_modifiers_on_previous_line", 1)
+				o.Count("methods_with_modifiers_on_previous_line", 1)
+				o.Seen("first_token_of_modifier_line", m.Form+":"+m.HeadFirst)
 				if m.HasBody && m.CloseLine-m.StartLine >= oracle.SmellMethodLenT-1 && m.CloseLine-m.StartLine <= oracle.SmellMethodLenT+2 {
-					o.Count("interface_methods_with_modifiers_on_previous_line/length_"+strconv.Itoa(m.CloseLine-m.StartLine), 1)
+					o.Count("methods_with_modifiers_on_previous_line/length_"+strconv.Itoa(m.CloseLine-m.StartLine), 1)
 				}
 			}
 			if m.TypedLambdaParams > 0 {
